@@ -359,6 +359,7 @@ def main():
     # a filtered run (--only) is a development / seed-testing aid: its coverage record must not replace the evidence of the
     # registered commands
     evdir = os.path.join(VERIF, "evidence") if not a.only else os.path.join(ws.CACHE, "evidence_partial")
+    evdir = os.environ.get("VERIF_EVIDENCE_DIR", evdir)
     os.makedirs(evdir, exist_ok=True)
     evp = os.path.join(evdir, prop + ".json")
     with open(evp + ".tmp", "w") as f:
